@@ -16,7 +16,10 @@ package main
 import (
 	"flag"
 	"fmt"
+	"os"
 	"runtime"
+	"runtime/debug"
+	"runtime/pprof"
 	"time"
 
 	"github.com/grailbio/base/log"
@@ -43,6 +46,12 @@ func main() {
 		ev.Fatal("replay: re-run the check; the violation detail names history and fault (%s)", r.Replay)
 	}
 	log.SetOutputter(nopOut{})
+	debug.SetGCPercent(1600) // millions of tiny short-lived runs: the live heap is a few MB
+	if pf := os.Getenv("C15_CPUPROFILE"); pf != "" {
+		f, _ := os.Create(pf)
+		pprof.StartCPUProfile(f)
+		defer pprof.StopCPUProfile()
+	}
 	vfsSelfCheck()
 	workers := runtime.NumCPU()
 
@@ -111,6 +120,7 @@ func main() {
 	r.Assume = append(r.Assume,
 		"file system = verifh/vfs: a failed Close publishes nothing, an open file reads the content committed when it was opened, no artificial short reads",
 		"retryPolicy replaced by a wrapper around the REAL policy object that keeps its keep-going decision and zeroes the delay")
+	pprof.StopCPUProfile()
 	r.Finish(cov)
 }
 
